@@ -1028,6 +1028,15 @@ def c16(tier):
             sc = mk_scen(bb, gkw, hooks=allhooks, actors=[])
             sc["hook_exit_by_kind"] = {"teardown": 1, "node_teardown": 1}
             tasks.append(dict(id=f"hooks-failing-teardown-{g}-{tag}", scen=sc, oracles=["Obs", "C16"], budget=(0, 0), cls="hooks+failing-teardown"))
+    # failing setup / node setup commands: run once, and nothing they guard is started
+    for g in ("pair", "chain3"):
+        bb = S.REP[g]
+        for kind in ("setup", "node_setup"):
+            for tag, gkw, mode in (("sz1", dict(size=1, max_nodes=2), "hpc"), ("local", dict(nproc=2), "local")):
+                kw = dict(mode="local", actors=[]) if mode == "local" else {}
+                sc = mk_scen(bb, gkw, hooks=allhooks, **kw)
+                sc["hook_exit_by_kind"] = {kind: 1}
+                tasks.append(dict(id=f"hooks-failing-{kind}-{g}-{tag}", scen=sc, oracles=["Obs", "C16"], budget=(0, 0), cls=f"hooks+failing-{kind}"))
     # a resubmission: teardown again, setup not
     for g in ("chain2", "pair", "chain3"):
         bb = S.REP[g]
@@ -1039,7 +1048,7 @@ def c16(tier):
             sc["exit_codes"] = {S.NAMES[i]: [c, 0] for i, c in enumerate(ec) if c}
             tasks.append(dict(id=f"hooks-resub-{g}-e{''.join(map(str, ec))}-f{''.join(map(str, fl))}", scen=sc, oracles=["Obs", "C16"], budget=(0, 0), cls="hooks+resubmit"))
     tasks += l2_reader_race_tasks(["C16"], tier, hooks=allhooks, prefix="c16")
-    bounds = "a user's show-status started at any point at sync level L2 with 2 (thorough 3) preemptions on the one-job submission, all four hooks set; a refused batch (completion with missing jobs); failing teardown hooks without a recovery actor; two submission groups; resubmissions (all / some / successful jobs); all 16 set/unset combinations of the four lifecycle commands x 4 REP graphs x {1 batch per job, one batch, 2 per batch, local}; failing teardown hooks; budget 1 on the multi-batch scenarios"
+    bounds = "a user's show-status started at any point at sync level L2 with 2 (thorough 3) preemptions on the one-job submission, all four hooks set; failing setup / node setup commands (run once, nothing started behind them); a refused batch (completion with missing jobs); failing teardown hooks without a recovery actor; two submission groups; resubmissions (all / some / successful jobs); all 16 set/unset combinations of the four lifecycle commands x 4 REP graphs x {1 batch per job, one batch, 2 per batch, local}; failing teardown hooks; budget 1 on the multi-batch scenarios"
     return explore_check("C16", tier, tasks, S_RULE, COMMON_ASSUMPTIONS, dict(bounds=bounds))
 
 
@@ -1276,6 +1285,14 @@ def c15_tasks(tier):
                     scq["free_at_poll"] = True
                     tasks.append(dict(id=f"pipe-{'+'.join(combo)}-squeue-fault", scen=scq, oracles=["Obs", "C15"], budget=(0, 1),
                                       fault=dict(plan="c11", kinds=["squeue"]), cls="pipeline+squeue-fault"))
+                    # (a2) a full disk at one write (EDQUOT at open / commit of any status, results or pipeline file) in any
+                    # process, at sync level L2: whatever dies, no stage is started early or configured twice
+                    if combo in (("two-batches", "one"), ("one-batch2", "one")):
+                        scw = copy.deepcopy(sc)
+                        scw["free_at_poll"] = True
+                        scw["level"] = 2
+                        tasks.append(dict(id=f"pipe-{'+'.join(combo)}-edquot", scen=scw, oracles=["Obs", "C15"], budget=(0, 1),
+                                          fault=dict(plan="c11", kinds=["write"]), cls="pipeline+write-fault"))
                     # (b) a failing first job with cancel flags on the others: canceled jobs have results, they are not missing
                     scf = copy.deepcopy(sc)
                     first = stages[0]["jobs"][0]["name"]
@@ -1319,7 +1336,7 @@ def c15_tasks(tier):
 def c15(tier):
     tasks = c15_tasks(tier)
     bounds = ("pipelines of 1-3 (thorough 4) stages over 5 stage shapes (1 job; 2 jobs in 2 batches; 2 jobs in 1 batch; 2-job chain; local), stage configs with and without their own submission groups, "
-              "a failing job in stage 1, a refused batch (stage ends with missing jobs), a failing stage teardown command, a user-run try-submit-jobs on the current stage at any point, a duplicated stage-2 trigger at any later point; jade pipeline submit as the login process, next stages triggered by the real submit-next-stage; 1 preemption on <=2-stage pipelines (all in thorough) with the recovery actor on the current stage")
+              "a failing job in stage 1, a refused batch (stage ends with missing jobs), a failing stage teardown command, squeue failing for a whole round, EDQUOT at any single write (L2), a failing job with cancel flags, a user-run try-submit-jobs on the current stage at any point, a duplicated stage-2 trigger at any later point; jade pipeline submit as the login process, next stages triggered by the real submit-next-stage; 1 preemption on <=2-stage pipelines (all in thorough) with the recovery actor on the current stage")
     return explore_check("C15", tier, tasks, S_RULE, COMMON_ASSUMPTIONS + ["auto-config commands are not explored (they write relative to the process cwd); stage config files only"], dict(bounds=bounds))
 
 
